@@ -96,21 +96,82 @@ def run(ctx):
         ctx.check(len(g1) == len(base) and k is not None, "split followed by clean does not give back the original segmentation", desc, base, g1)
         if it % 2 == 0:
             ctx.check(jc == j0, "cleaned curve is not == to the original", desc)
+    extra_families(ctx)
     # ---- curved: circle pieces
     for it in range(6 if ctx.quick else 80):
         nd = rng.choice([4, 8, 16])
         c = Primitive.circle(radius=rng.choice([1, 2]), ndivangle=nd).jordans[0]
         c0 = copy.deepcopy(c)
         a0 = float(IntegrateJordan.area(c))
-        pairs = [(rng.randrange(nd), rng.choice([0.25, 0.5, 0.3, 0.75])) for _ in range(rng.randint(1, 3))]
+        idx = rng.sample(range(nd), rng.randint(1, 3))           # one well-separated parameter per arc (close parameters: family above)
+        pairs = [(i, rng.choice([0.25, 0.5, 0.3, 0.75])) for i in idx]
         c.split([p[0] for p in pairs], [p[1] for p in pairs])
         ctx.case("curved-split", ("circle", nd, repr(pairs)))
         ctx.check(abs(float(IntegrateJordan.area(c)) - a0) <= 1e-6, "split changed the area of a circle", {"ndivangle": nd, "pairs": pairs}, a0, float(IntegrateJordan.area(c)))
-        ctx.check(all(s.degree == 2 for s in c.segments), "long circle pieces were degree-reduced", {"ndivangle": nd, "pairs": pairs})
+        gaps = [abs(p[1] - q[1]) for p in pairs for q in pairs if p is not q and p[0] == q[0]]
+        if not gaps or min(gaps) >= 0.2:
+            ctx.check(all(s.degree == 2 for s in c.segments), "long circle pieces were degree-reduced", {"ndivangle": nd, "pairs": pairs})
         for (i, t) in pairs:
             q = c0.segments[i](t)
             ctx.check(any(abs(float(s.ctrlpoints[0][0] - q[0])) < 1e-6 and abs(float(s.ctrlpoints[0][1] - q[1])) < 1e-6 for s in c.segments), "no junction at segment(t) on the circle", {"pairs": pairs})
-        ctx.check(c == c0, "split circle is not == to the original", {"ndivangle": nd, "pairs": pairs})
+        if all(s.degree == 2 for s in c.segments):       # == is only promised while the pieces keep the degree of their segment
+            ctx.check(c == c0, "split circle is not == to the original", {"ndivangle": nd, "pairs": pairs})
+
+
+def extra_families(ctx):
+    import copy, math
+    from shapepy import JordanCurve, Primitive
+    from shapepy.jordancurve import IntegrateJordan
+    rng, drv = ctx.rng, ctx.drv
+    # (a) curved segments split at parameters that are close to each other or to an end: pieces may be degree-reduced, but the
+    #     chain must stay closed with shared junctions, and later calls must keep working
+    for it in range(8 if ctx.quick else 150):
+        nd = rng.choice([4, 8, 16])
+        c = Primitive.circle(radius=rng.choice([1.0, 2.0]), ndivangle=nd).jordans[0]
+        a0 = float(IntegrateJordan.area(c))
+        i = rng.randrange(nd)
+        base = rng.choice([0.3, 0.5, 0.7])
+        pairs = rng.choice([[(i, base), (i, base + 0.01)], [(i, 0.01)], [(i, 0.99)], [(i, base), (i, base + 0.002), ((i + 1) % nd, 0.5)], [(i, 0.005), (i, 0.5), (i, 0.995)]])
+        desc = {"ndivangle": nd, "pairs": pairs}
+        ctx.case("curved-close-parameters", (nd, repr(pairs)))
+        try:
+            c.split([p[0] for p in pairs], [p[1] for p in pairs])
+            segs = c.segments
+            ok_chain = all(segs[k].ctrlpoints[-1] is segs[(k + 1) % len(segs)].ctrlpoints[0] for k in range(len(segs)))
+            ctx.check(ok_chain, "after a split with close parameters consecutive pieces do not share one junction point", desc)
+            ctx.check(all(tuple(sg.ctrlpoints[0]) != tuple(sg.ctrlpoints[-1]) for sg in segs), "zero-length piece after a split with close parameters", desc)
+            err = abs(float(IntegrateJordan.area(c)) - a0)
+            r2 = a0 / math.pi
+            reduced = any(sg.degree == 1 for sg in segs)
+            ctx.check(err <= 1e-6, "split with close parameters changed the area by more than 1e-6", desc, a0, float(IntegrateJordan.area(c)),
+                      sig={"family": "curved-close-parameters", "a_piece_was_degree_reduced": reduced, "error_below_2e-5_r2": err <= 2e-5 * r2})
+            verts = [tuple(map(float, v)) for v in c.vertices]
+            ctx.check(len(set(verts)) == len(verts), "duplicated vertex after a split with close parameters", desc)
+            c2 = copy.deepcopy(c)
+            c2.split([0], [0.5]); c2.clean(); float(c2)
+        except Exception as ex:
+            ctx.fail("split / clean raised after a split with close parameters", desc, got=repr(ex))
+    # (b) vertices that are NEARLY collinear are not redundant: clean() must keep them (exact rational polygons)
+    for dev in (F(1, 10000), F(1, 1000), F(1, 100000)):
+        for k in range(2 if ctx.quick else 10):
+            w = F(rng.randint(1, 4))
+            vs = [(0, 0), (w, -dev), (2 * w, 0), (2 * w, 3), (w, 3 + dev), (0, 3)]
+            sh = (F(rng.randint(-3, 3)), F(rng.randint(-3, 3)))
+            vs = [(x + sh[0], y + sh[1]) for x, y in vs]
+            J = JordanCurve.from_vertices(vs)
+            a0 = IntegrateJordan.area(J)
+            J.clean()
+            ctx.case("near-collinear-clean", (repr(vs),))
+            exp = core.djordan(drv.ask("cleanj " + core.epoly(vs)))
+            ctx.check(len(J.segments) == len(exp) == 6 and IntegrateJordan.area(J) == a0, "clean() removed a vertex that is not redundant", {"vertices": vs, "deviation": dev}, 6, len(J.segments),
+                      sig={"family": "near-collinear-clean", "deviation_below_6e-5": dev < F(6, 100000)})
+    # regular polygons with many sides: every vertex is a real vertex
+    for ns in (120, 360):
+        P = Primitive.regular_polygon(ns).jordans[0]
+        a0 = float(IntegrateJordan.area(P))
+        P.clean()
+        ctx.case("near-collinear-clean", ("regular", ns))
+        ctx.check(len(P.segments) == ns and abs(float(IntegrateJordan.area(P)) - a0) < 1e-12, "clean() removed vertices of a regular polygon", {"nsides": ns}, ns, len(P.segments))
 
 
 def PlanarEval(ctrl, t):
